@@ -23,41 +23,41 @@ TEXT = {
         note=BASE_NOTE + " The translation of the eight constructors, Type() and ToBytes() is by gengo's recognised statement forms; an unrecognised form makes CtrlTie.v fail.",
         technique="Coq proof over translator-generated definitions (reflexivity, finite sweep lifted by forallb_forall) + exhaustive correspondence"),
     "C04": dict(
-        level="Proof (partial): C04_partial_decimal / C04_partial_unsigned / C04_partial_binary / C04_partial_size (what the printers emit for numbers and sizes is read back as the same value, all widths). The full statement C04_print_parse is kept visible in props/C04.v and is not proved; it is decided by the Go-side monitors of suite C04 (API-built messages printed and re-parsed: exactly one message, no error, no warning, same header fields, variables, printed form and bytes once completed; and for every accepted text, each returned message is a fixed point) and by the correspondence of printer, lexer and parser with the model.",
+        level="Proof (sub-grammar complete, rest partial): C04_print_parse — sml.Parse of the printed form of any sequence of messages (any stream/function code, wait bit, direction, a name the header lexer reads as one name; item trees of lists, plain list variables and integer / unsigned / binary / boolean value items of any size, nesting and value; or no item) returns exactly those messages with no error and no warning: the printer model, the lexer model and the parser model composed, by induction over trees, elements and fuel. Its layers: C04_print_lex_parse (characters -> tokens -> tree), C04_item_tokens, C04_leaf_item, C04_leaf_tokens, and the literal lemmas C04_partial_*. Not proved: float items (their text is a strconv oracle), ASCII items, ellipses, and the converse direction (printed form is a fixed point of every accepted text); those are decided by the Go-side monitors of suite C04 (API-built messages printed and re-parsed: exactly one message, no diagnostics, same header, variables, printed form and bytes; every accepted text re-printed and re-parsed) and by the correspondence of printer, lexer and parser with the model.",
         note=BASE_NOTE + " Float text is an oracle (strconv).",
-        technique="Coq proof at the literal level + print/parse monitors + differential correspondence of printer, lexer and parser"),
+        technique="Coq proof (printer, lexer and parser models composed; offset parametricity of the parser) + print/parse monitors + differential correspondence"),
     "C05": dict(
         level="Proof: C05_int / C05_uint / C05_bin (a number token that adds no error is stored as the integer strconv reads from it, within the item's range), C05_digits (printing in base 2..36 then scanning is the identity), C05_decimal (value or range error at every width, never wrapped), C05_prefixed (0x/0b/0o in either case), C05_quoted / C05_quoted_refused. Floats: oracle (C05_float_partial). Suite C05: literal grammar for all 14 types with expected values computed independently of library and model.",
         note=BASE_NOTE + " strconv.ParseInt/ParseUint/Atoi are re-implemented in the model for the token language of the lexer; ParseFloat is an oracle.",
         technique="Coq proof over a re-implementation of strconv's integer scanning + literal-grammar suite with an independent oracle"),
     "C06": dict(
-        level="Proof (partial): C06_all_or_nothing, C06_positions (every reported position has 1 <= line <= number of lines, column >= 1), C06_terminates (all model functions are structurally recursive on a fuel bounded by the input). C06_no_crash_partial is stated, not proved. The runtime half: token soups, mutated messages, random bytes and resource-hostile texts in a worker subprocess under an address-space limit and a watchdog: no panic escapes, no abort, no hang, TotalAlloc below a fixed linear bound; all-or-nothing, message count and diagnostic format/position monitors on the library.",
+        level="Proof: C06_no_crash (for every input the one panic site outside parseDataItem's recover, the message constructor, is never reached with arguments it refuses: lexer invariant over the UTF-8 decoder + parser invariant), C06_all_or_nothing, C06_nothing_dropped (no error reported => every token up to EOF was read: a refused message always adds an error, an accepted one consumes a token, the fuel is never used up), C06_lexer_terminates (every lexer step consumes input; the stream ends in EOF or an error token), C06_progress, C06_positions. Partial by nature: time and the Go stack are the runtime's; token soups, every Unicode space at every header position, mutated messages, random bytes and resource-hostile texts run in a worker subprocess under a memory bound and a watchdog, and in the correspondence.",
         note=BASE_NOTE + " Partial: time complexity and the Go stack are not modelled.",
-        technique="Coq proof of all-or-nothing and position bounds + hostile-input worker subprocess + token-soup correspondence"),
+        technique="Coq proof (lexer and parser invariants by induction on fuel) + hostile-input worker subprocess + token-soup correspondence"),
     "C08": dict(
-        level="Proof (partial): C08_whitespace (any run of blanks, tabs, CR, LF before a token is skipped in both lexer states and shifts offsets by exactly its length), C08_positions, C08_prefix_case. The comment half and keyword case (C08_gap_partial) are decided by metamorphic pairs on the library (same token sequence, valid or invalid, under different layouts, comment texts with arbitrary trailing bytes, letter case) and the token-level correspondence with the lexer model.",
+        level="Proof (partial): C08_whitespace (any run of blanks, tabs, CR, LF before a token is skipped in both lexer states), C08_comment (a // comment with any bytes up to its line feed yields no token and moves the following offsets by exactly its length), C08_offsets (lexing at another offset = the same tokens, moved), C08_positions_irrelevant / C08_diagnostics_follow_tokens (the parser's messages and diagnostic kinds do not depend on token offsets; each diagnostic carries the token it points at), C08_fuel, C08_positions, C08_prefix_case. Not proved in general: that a gap after a token leaves that token unchanged (locality of the prefix matchers; proved for printed texts in C04) and keyword letter case; decided by metamorphic pairs on the library (same token sequence, valid or invalid, under different layouts, comment texts with arbitrary trailing bytes, letter case), an independent token-position monitor, and the token-level correspondence.",
         note=BASE_NOTE,
-        technique="Coq proof (whitespace skipping by induction) + metamorphic layout pairs + token-stream correspondence"),
+        technique="Coq proof (step-function lexer: whitespace, comments, offset shifting; offset parametricity of the parser) + metamorphic layout pairs + token-stream correspondence"),
     "C15": dict(
         level="Proof: C15_iff (the size check refuses exactly the counts outside the bounds), C15_form_exact / _range / _lower / _upper (each declaration form denotes the bounds written, for all bounds below 2^63), C15_overflow (clamped bounds still refuse), C15_variable (an ASCII variable enforces its bounds on fill). Suite C15 is the exhaustive grid over types, forms and (lower, upper, count) in 0..5 with an independent expectation.",
         note=BASE_NOTE,
         technique="Coq proof (arithmetic + decimal scanning) + exhaustive grid with independent oracle"),
     "C19": dict(
-        level="Proof (partial): C19_scoping (parsing a message is independent of the names and ellipsis counter left by the previous one), C19_separator (white space between messages is skipped). The concatenation law itself (C19_concat_partial) is decided by suite C19: sequences of accepted texts joined by every separator class, on the library (monitor) and on the model.",
+        level="Proof (partial): C19_message_alone + C19_rest_alone (at any point of the message loop the final result is the result so far followed by the result of parsing the remaining tokens from a fresh state: names, ellipsis counter, earlier diagnostics and messages do not influence what follows), C19_scoping, C19_all_messages (the loop stops only at EOF or with an error), C19_separator, C19_comment_separator. Not proved: that the tokens of t1 ++ sep ++ t2 are those of t1 followed by those of t2 (lexer locality after a terminator) and that the first text's messages do not depend on the tokens that follow; decided by suite C19: sequences of accepted texts joined by every separator class, on the library (monitor, incl. warnings modulo position) and on the model.",
         note=BASE_NOTE,
-        technique="Coq proof of scoping + concatenation monitor + differential correspondence"),
+        technique="Coq proof (past-independence of the message loop by rewriting through every parser function) + concatenation monitor + differential correspondence"),
     "C07": dict(
         level="Proof (partial): C07_total (the decoder model's only outcomes are rejection or the denoted message), C07_alloc / C07_alloc_items (allocation units, charged where the Go code allocates, are at most 5 per input byte + 16 whatever lengths the input declares; mutual induction over the fuel using decoder soundness), C07_depth (recursion depth at most half the input length). The runtime half: every hostile input is decoded in a worker subprocess under an address-space limit and a watchdog, runtime.MemStats.TotalAlloc must stay below 2048 bytes per input byte + 64 KiB, no panic may escape, an abort is a violation unless it is the listed known finding K1 (stack overflow at 8,000,000 nesting levels).",
         note=BASE_NOTE + " Partial: the allocator, GC and the 1 GB goroutine stack cap are the Go runtime's; the unit cost model is tied to the code by the TotalAlloc bound, not by proof.",
         technique="Coq proof of a linear bound on a cost semantics + worker-subprocess measurement of TotalAlloc on hostile inputs"),
     "C09": dict(
-        level="Proof (partial for lists): C09_subst (FillVariables of a value item = the factory on the argument list with the values in place, refusal included), C09_unknown, C09_values_survive, C09_names, C09_bytes. The composition law and the order of remaining variables for list templates are decided by the Go-side monitor of suite C09 (single fill vs every split into successive fills) and by correspondence with the model (C09_compose_partial).",
+        level="Proof (partial for lists): C09_subst (FillVariables of a value item = the factory on the argument list with the values in place, refusal included), C09_compose_leaf (filling a value item in two steps = filling once with the union of the maps, for values that bring no variable of their own), C09_unknown, C09_values_survive, C09_names, C09_bytes. The composition law and the order of remaining variables for list templates are decided by the Go-side monitor of suite C09 (single fill vs every split into successive fills) and by the correspondence with the model.",
         note=BASE_NOTE,
         technique="Coq proof (substitution lemma through the factory) + differential correspondence + metamorphic monitor (split fills)"),
     "C10": dict(
-        level="Proof (partial): C10_unique (names stay unique for every template and assignment), closed instances C10_zero / C10_two; the state-passing model mirrors fillEllipsis one to one and is tied to the code by all small templates (exhaustive enumeration) and random larger ones; C10_refines (equality with a declarative expander) is not proved yet.",
+        level="Proof: C10_refines (for every template, nesting and non-negative counts the expander of list.go — dimension stack, index vector, restart of the loop index, counter of remaining ellipses — computes the declarative expansion expand_d: the group before a filled ellipsis n+1 times, copy j under the index path extended by j, the rest once; by induction on fuel with a state-representation invariant), C10_fill (FillVariables = that expansion under the empty path, then plain substitution), C10_count ((n+1)*p + rest children), C10_rename (suffix [j] after the enclosing suffixes, outermost first), C10_renumber, C10_unique. Negative counts are outside the theorem (hypothesis counts_ok) and compared by the suite. The model is tied to the code by all small templates (exhaustive enumeration) and random larger ones, plus structural monitors.",
         note=BASE_NOTE,
-        technique="Coq model mirroring the expander + exhaustive small-template correspondence + structural monitors"),
+        technique="Coq refinement proof (state-passing expander vs declarative expansion) + exhaustive small-template correspondence + structural monitors"),
     "C11": dict(
         level="Proof: C11_histories (address-level model Heap.v: for every sequence of constructor, producer, accessor calls and caller writes through every address the caller ever held, every pooled object is observed as at creation; invariant by induction), C11_exposure_refuted (the same model with an exposing accessor violates it: the statement is not vacuous), C11_no_exposure / C11_no_retention / C11_no_writes_to_shared (the policy holds of the source: effect summary regenerated by the translator on every run), C11_pool_grows (pure model). Correspondence: mutation histories with scribbling over every shared slice, and a creation-vs-end monitor.",
         note=BASE_NOTE + " The effect analysis is syntactic and conservative (unknown forms fail the obligation).",
@@ -71,9 +71,9 @@ TEXT = {
         note=BASE_NOTE + " float64->float32 and int->float64 conversions are modelled in Gallina (round to nearest even) and validated against Go on the boundary grid and random values.",
         technique="Coq proof over the factory model + exhaustive boundary-grid correspondence + independent oracle"),
     "C16": dict(
-        level="Proof: C16_nodup (for every history of API calls no name occurs twice in any pooled item or message: invariant by induction over the history), C16_encodable (ToBytes non-empty iff no variables), C16_size. The printed-order clause is decided by an independent reader of the printed form on the Go side (C16_order_partial).",
+        level="Proof: C16_nodup (for every history of API calls no name occurs twice in any pooled item or message: invariant by induction over the history), C16_printed_form + C16_order (the printed form is the text of a printer that marks every variable-name occurrence; erasing the marks gives String(), and the marked names in order are exactly Variables(), an ellipsis shown as ...), C16_order_premise, C16_encodable (ToBytes non-empty iff no variables), C16_size. Suite C16 (a third of the cases with every returned slice written over) + an independent reader of the printed form on the Go side.",
         note=BASE_NOTE,
-        technique="Coq invariant over histories (fold_left) + correspondence + independent printed-form reader"),
+        technique="Coq invariant over histories (fold_left) + marked-printer theorem + correspondence + independent printed-form reader"),
     "C18": dict(
         level="Proof: C18_setwaitbit, C18_setsession, C18_fill (each result is refused or equal to the input in every field but the named ones), C18_sequences (validity and identity fields are invariants of every producer sequence). Correspondence suite C18 + Go-side frame-condition monitor.",
         note=BASE_NOTE,
